@@ -17,15 +17,17 @@ func init() {
 		ID: "C01",
 		Explanation: "Decides the structural core of C01's tiling clause for every path of every parse function: (TILE) a typestate over the parser events next/backup/addSep/parse(ps,child)/addChild shows that no rune consumed by a node's own code is left unclaimed before a child is parsed or attached, nor after the last child when the node has children; (WRAP) Node.parse methods are invoked only by the generic range-recording wrapper parse[N], every node literal flows into that wrapper (or ParseAs), and every parsed child is attached to its parent on all paths; (ERRPOS) explicit error ranges are built only from parser positions already visited. Termination, invalid UTF-8 handling and per-input error positions are not decided.",
 		NotCovered:  "termination of parsing; leaf text equality beyond the single assignment in parse[N]; invalid UTF-8; error positions for all inputs",
-		Rules: []string{"TILE: raw-rune typestate (0,1,2,many unclaimed runes; has-child) with interprocedural summaries over all functions of pkg/parse reachable from node parse methods",
+		Rules: []string{"SRC-IDENTITY: the parser state is initialised with the fields of the caller's parse.Source, unchanged", "TILE: raw-rune typestate (0,1,2,many unclaimed runes; has-child) with interprocedural summaries over all functions of pkg/parse reachable from node parse methods",
 			"WRAP: only parse[N] calls Node.parse; node literals flow into parse[N]/ParseAs; parsed children are adopted on all paths",
 			"RANGE-OWN: only parse[N] records From/To/sourceText; the text is sliced with the node's final range even when a parse method moves its own start",
 			"ERRPOS: arguments of parser.errorp are ranges over visited positions"},
 		Patterns: []string{"./pkg/parse/...", "./pkg/edit/filter", "./pkg/elvdoc"},
-		Run:      runC01,
-		MinCounts: map[string]int{"TILE": 40, "WRAP": 25, "ERRPOS": 2, "RANGE-OWN": 4},
+		Run:      func(p *core.Program, r *core.Report) { runC01(p, r); runSrcIdentity(p, r) },
+		MinCounts: map[string]int{"TILE": 40, "WRAP": 25, "ERRPOS": 2, "RANGE-OWN": 4, "SRC-IDENTITY": 1},
 		Trusted:  append([]string{"event vocabulary of pkg/parse (next, backup, addSep, parse[N], addChild, addAs, addTo) resolved by object identity"}, trustedBase...),
 		Controls: []core.Control{
+			{Name: "parser-strips-byte-order-mark", Rule: "SRC-IDENTITY", File: "pkg/parse/parse.go", Old: "\tps := &parser{srcName: src.Name, src: src.Code, warn: cfg.WarningWriter}", New: "\tcode := src.Code\n\tif len(code) >= 3 && code[:3] == \"\\xef\\xbb\\xbf\" {\n\t\tcode = code[3:]\n\t}\n\tps := &parser{srcName: src.Name, src: code, warn: cfg.WarningWriter}", Fire: true, Want: "ParseAs", Quick: true},
+			{Name: "benign-parser-built-from-a-copy-of-the-source-struct", Rule: "SRC-IDENTITY", File: "pkg/parse/parse.go", Old: "\tps := &parser{srcName: src.Name, src: src.Code, warn: cfg.WarningWriter}", New: "\ts2 := src\n\tps := &parser{srcName: s2.Name, src: s2.Code, warn: cfg.WarningWriter}", Fire: false},
 			{Name: "lbracket-drop-backup", Rule: "TILE", File: "pkg/parse/parse.go", Old: "\t\t\tps.backup()\n\t\t\tparse(ps, &MapPair{}).addTo(&pn.MapPairs, pn)", New: "\t\t\tparse(ps, &MapPair{}).addTo(&pn.MapPairs, pn)", Fire: true, Want: "lbracket", Quick: true, Patterns: []string{"./pkg/parse"}},
 			{Name: "redir-drop-addSep", Rule: "TILE", File: "pkg/parse/parse.go", Old: "\taddSep(rn, ps)\n\tparseSpaces(rn, ps)", New: "\tparseSpaces(rn, ps)", Fire: false, Patterns: []string{"./pkg/parse"}},
 			{Name: "redir-drop-addSep-and-spaces", Rule: "TILE", File: "pkg/parse/parse.go", Old: "\taddSep(rn, ps)\n\tparseSpaces(rn, ps)\n\tif parseSep(rn, ps, '&') {\n\t\trn.RightIsFd = true\n\t}", New: "\tif ps.peek() == '&' {\n\t\tps.next()\n\t\trn.RightIsFd = true\n\t}", Fire: true, Want: "Redir", Patterns: []string{"./pkg/parse"}},
